@@ -634,6 +634,9 @@ class Machine:
         cmpops = ("Eq", "Lt", "Le", "Ne", "Ge", "Gt")
         if is_float(a) and is_float(b):
             if op in cmpops:
+                if F.is_lit(a) and F.is_lit(b):
+                    x, y = F.litval(a), F.litval(b)
+                    return {"Eq": x == y, "Lt": x < y, "Le": x <= y, "Ne": x != y, "Ge": x >= y, "Gt": x > y}[op]
                 return ("fcmp", op, a, b)
             m = {"Add": "add", "Sub": "sub", "Mul": "mul", "Div": "div"}.get(op)
             if m is None:
